@@ -87,8 +87,30 @@ Bodies ==
      w |-> <<<<"O", TOpt(T16)>>>>,
      pts |-> {("O" :> o) : o \in {VNone, VSome(U16(3)), VSome(U16(11))}}]>>
 
-PrFamilies == {[b |-> i] : i \in 1..Len(Bodies)}
+\* ---- witnesses of branches that are not executed may be left out of the witness map ---------------------------
+\* (satisfy ignores missing names; with pruning the verdict must still be the one of the unpruned program)
+\* two spending paths chosen by a witness, each with its own secret; the secret of the other path is omitted
+PathBody ==
+  [ss |-> <<SExpr(EMatch(EWit("PATH"),
+                         <<Arm(MLeft("x", T8), AssertE(JetE("eq_8", <<V("x"), EWit("LSECRET")>>))),
+                           Arm(MRight("h", T32), Blk(<<A(JetE("eq_16", <<EWit("RSECRET"), Dec(513)>>)),
+                                                        Chk("check_lock_height", V("h"))>>))>>))>>,
+   w |-> <<<<"PATH", TEither(T8, T32)>>, <<"LSECRET", T8>>, <<"RSECRET", T16>>>>,
+   pts |-> <<[v |-> ("PATH" :> VLeft(U8(5))) @@ ("LSECRET" :> U8(5)) @@ ("RSECRET" :> U16(0)), omit |-> <<"RSECRET">>],
+             [v |-> ("PATH" :> VLeft(U8(5))) @@ ("LSECRET" :> U8(6)) @@ ("RSECRET" :> U16(0)), omit |-> <<"RSECRET">>],
+             [v |-> ("PATH" :> VRight(U32(100))) @@ ("LSECRET" :> U8(0)) @@ ("RSECRET" :> U16(513)), omit |-> <<"LSECRET">>],
+             [v |-> ("PATH" :> VRight(U32(101))) @@ ("LSECRET" :> U8(0)) @@ ("RSECRET" :> U16(513)), omit |-> <<"LSECRET">>],
+             [v |-> ("PATH" :> VRight(U32(100))) @@ ("LSECRET" :> U8(0)) @@ ("RSECRET" :> U16(514)), omit |-> <<"LSECRET">>],
+             [v |-> ("PATH" :> VLeft(U8(5))) @@ ("LSECRET" :> U8(5)) @@ ("RSECRET" :> U16(513)), omit |-> <<>>]>>]
+
+PrFamilies == {[b |-> i] : i \in 1..Len(Bodies)} \cup {[b |-> 0]}
 PrProgramsOf(f) ==
+  IF f.b = 0
+  THEN {[items |-> <<Main(Blk(PathBody.ss))>>, wdecls |-> PathBody.w, args |-> EmptyFn,
+         space |-> [i \in 1..Len(PathBody.pts) |-> PathBody.pts[i].v],
+         omit |-> [i \in 1..Len(PathBody.pts) |-> PathBody.pts[i].omit],
+         envs |-> Envs, prune |-> TRUE, tag |-> "prune"]}
+  ELSE
   LET bd == Bodies[f.b] IN
   {[items |-> <<Main(Blk(bd.ss))>>, wdecls |-> bd.w, args |-> EmptyFn, space |-> SetToSeq(bd.pts),
     envs |-> Envs, prune |-> TRUE, tag |-> "prune"]}
